@@ -32,18 +32,19 @@ type VerifC11Case struct {
 
 // VerifC11Spec is the fault script of one batch.
 type VerifC11Spec struct {
-	Names  []string       `json:"names"`
-	Cases  []VerifC11Case `json:"cases"` // same length as Names
-	IsRef  bool           `json:"isRef"`
-	UseTLS bool           `json:"useTLS"`
-	Start  string         `json:"start"`  // ok | err
-	Write  string         `json:"write"`  // ok | prefix | body   (which Write of the server request fails)
-	Close  string         `json:"close"`  // ok | err            (closing the server's stdin)
-	Resp   string         `json:"resp"`   // ok | okcert | garbage | oversize | zero | cut | never
-	Cut    int            `json:"cut"`    // resp=cut: only the first Cut bytes of the well-formed response (without certificate), then EOF
-	Dies   int            `json:"dies"`   // -1: never; k >= 0: the server process dies once k requests were handed to the client
-	Stderr string         `json:"stderr"` // what a reference server prints on stderr
-	Chunk  int            `json:"chunk"`  // stderr is delivered in reads of at most Chunk bytes (0: all at once)
+	Names   []string       `json:"names"`
+	Cases   []VerifC11Case `json:"cases"` // same length as Names
+	IsRef   bool           `json:"isRef"`
+	UseTLS  bool           `json:"useTLS"`
+	Start   string         `json:"start"`   // ok | err
+	Write   string         `json:"write"`   // ok | prefix | body   (which Write of the server request fails)
+	Close   string         `json:"close"`   // ok | err            (closing the server's stdin)
+	Resp    string         `json:"resp"`    // ok | okcert | garbage | oversize | zero | cut | never
+	Cut     int            `json:"cut"`     // resp=cut: only the first Cut bytes of the well-formed response (without certificate), then EOF
+	RespLen int            `json:"respLen"` // length of that well-formed response as the generator believes it (checked)
+	Dies    int            `json:"dies"`    // -1: never; k >= 0: the server process dies once k requests were handed to the client
+	Stderr  string         `json:"stderr"`  // what a reference server prints on stderr
+	Chunk   int            `json:"chunk"`   // stderr is delivered in reads of at most Chunk bytes (0: all at once)
 }
 
 type VerifC11Obs struct {
@@ -341,6 +342,9 @@ func VerifC11Run(spec VerifC11Spec) VerifC11Obs {
 			out.data = []byte{0, 0, 0, 0}
 		case "cut":
 			b := verifC11RespBytes(false)
+			if len(b) != spec.RespLen {
+				panic(fmt.Sprintf("c11: response length is %d, generator said %d", len(b), spec.RespLen))
+			}
 			if spec.Cut < len(b) {
 				b = b[:spec.Cut]
 			}
